@@ -22,4 +22,17 @@ var props = []propCfg{
 			"after every operation the keyset is compared with a reference model. Non-trivial = at least two distinct (operation kind, outcome) pairs occurred; distinct = signature (start kind, set of (op kind, ok/err) pairs, scripted live-ID collisions class, max live keys class, branches class).",
 		Assume: []string{"key.Equal of the key types used (AES-GCM, ChaCha20-Poly1305, HMAC, Ed25519, ECDSA) distinguishes different key material", "histories up to the stated length; at most ~12 live keys"},
 	},
+	{
+		ID: "C18", World: "sched", Pkg: "worlds/sched", Test: "TestSched", Level: "exploration", Instr: true,
+		Variants: []variant{
+			{Name: "plain", Quick: 2500, Thorough: 60000, Workers: 10, CPU: 4, QuickS: 1500, ThoroughS: 4 * 3600},
+			{Name: "race", Race: true, Quick: 500, Thorough: 12000, Workers: 6, CPU: 4, QuickS: 1500, ThoroughS: 4 * 3600},
+		},
+		Rule: "one run = one shared object (factory primitive over a 1..3-key keyset of a drawn class and key types from the catalog, a legacy-adapter MAC over a stub key manager, or a handle with its read operations, primitive construction, registry lookups and key generation), " +
+			"2..4 tasks (6 thorough) of 1..3 operations each on inputs that are overlapping sub-slices of one shared read-only arena, and one drawn plan of baton passes placed at yield points inserted before every statement of tink's sources. " +
+			"Each run is executed first task-by-task alone (sequential oracle, per-task RNG lanes), then under the plan; the race variant runs the same seeds under ThreadSanitizer, which sees no synchronisation between tasks except tink's own. " +
+			"Non-trivial = at least one preemption inside a tink call; distinct = signature (scenario, class, key type, op kinds, #tasks, preemption-count class, 16-bit hash of the (task, site) pass sequence).",
+		Assume: []string{"yield points exist in tink code only: the standard library, x/crypto and protobuf run atomically between them", "ThreadSanitizer's bounded access history", "amd64 store ordering for the norace baton",
+			"randomness drawn inside the standard library without a reader (ML-KEM) is checked semantically (recipient decrypts) instead of byte-for-byte"},
+	},
 }
